@@ -81,6 +81,7 @@ type C09R struct {
 	FailAt   int
 	WithData bool
 	Buf      int
+	Single   bool `json:",omitempty"` // xz reader with SingleStream set (it probes for a following byte)
 }
 
 func init() {
@@ -129,6 +130,10 @@ func c09Input(writer string) []byte {
 		return randBytes(8, 15000)
 	case "xzW-blockspan":
 		return append(randBytes(9, 100000), textBytes(9, 50000)...)
+	case "lzma2W-fullchunk", "xzW-fullchunk":
+		// exactly one full chunk (2 MiB uncompressed) in the first Write: its flush happens inside
+		// that call, and a failed flush leaves the writer with a full chunk pending
+		return append(make([]byte, 1<<21), []byte("and some more data after the full chunk")...)
 	}
 	return baseText[:70]
 }
@@ -258,6 +263,33 @@ func c09Writer(r *core.Run, p C09W) c09Run {
 				rec("Write", n, 3000, err)
 				rec("Flush", 0, 0, w.Flush())
 			}
+			rec("Close", 0, 0, w.Close())
+			rec("Close2", 0, 0, w.Close())
+		case "lzma2W-fullchunk":
+			res.fmt = "lzma2"
+			w, err := lzma.Writer2Config{DictCap: 4096}.NewWriter2(sink)
+			rec("NewWriter2", 0, 0, err)
+			if err != nil {
+				return
+			}
+			n, err := w.Write(in[:1<<21])
+			rec("Write", n, 1<<21, err)
+			n, err = w.Write(in[1<<21:])
+			rec("Write", n, len(in)-1<<21, err)
+			rec("Flush", 0, 0, w.Flush())
+			rec("Close", 0, 0, w.Close())
+			rec("Close2", 0, 0, w.Close())
+		case "xzW-fullchunk":
+			res.fmt = "xz"
+			w, err := xz.WriterConfig{DictCap: 4096, CheckSum: xz.CRC32}.NewWriter(sink)
+			rec("NewWriter", 0, 0, err)
+			if err != nil {
+				return
+			}
+			n, err := w.Write(in[:1<<21])
+			rec("Write", n, 1<<21, err)
+			n, err = w.Write(in[1<<21:])
+			rec("Write", n, len(in)-1<<21, err)
 			rec("Close", 0, 0, w.Close())
 			rec("Close2", 0, 0, w.Close())
 		case "xzW-blockspan":
@@ -428,14 +460,24 @@ func c09Reader(r *core.Run, s Stream, p C09R) {
 	var proto string
 	pan := core.Guard(func() {
 		var rd io.Reader
-		rd, err = openReader(s.Fmt, src)
+		if p.Single {
+			rd, err = xz.ReaderConfig{DictCap: 4096, SingleStream: true}.NewReader(src)
+		} else {
+			rd, err = openReader(s.Fmt, src)
+		}
 		if err != nil {
 			return
 		}
 		out, err, proto = readAll(rd, p.Buf, 1<<24)
 	})
-	desc := fmt.Sprintf("stream %s: source fails persistently at offset %d of %d (with data: %v), caller buffer %d", s.Name, p.FailAt, len(s.Data), p.WithData, p.Buf)
+	desc := fmt.Sprintf("stream %s: source fails persistently at offset %d of %d (with data: %v), caller buffer %d, SingleStream=%v", s.Name, p.FailAt, len(s.Data), p.WithData, p.Buf, p.Single)
 	site := fmt.Sprintf("%sR source-fail@%s", s.Fmt, newSiteMap(s).at(minInt(p.FailAt, len(s.Data))))
+	if p.Single {
+		site = fmt.Sprintf("xzR(SingleStream) source-fail@%s", newSiteMap(s).at(minInt(p.FailAt, len(s.Data))))
+		if p.FailAt == len(s.Data) {
+			site = "xzR(SingleStream) source-fail@after-the-stream"
+		}
+	}
 	cls := errClass(err)
 	switch {
 	case pan != nil:
@@ -449,7 +491,7 @@ func c09Reader(r *core.Run, s Stream, p C09R) {
 			r.Violate(cs, site+" → wrong-result-without-fault", desc, fmt.Sprintf("%d bytes, %s", len(out), errStr(err)), "regular decode")
 		}
 		cls = "not-reached"
-	case cls == "EOF" && p.FailAt == len(s.Data) && bytes.Equal(out, s.Plain):
+	case cls == "EOF" && p.FailAt == len(s.Data) && bytes.Equal(out, s.Plain) && !p.Single:
 		// every byte of the stream was delivered (the error accompanied or followed the
 		// last one); a reader of a self-terminating format may not need another read
 		cls = "complete-before-fault"
@@ -472,7 +514,7 @@ func runC09(r *core.Run) {
 	if thorough(r) {
 		level = 1
 	}
-	r.Rule = "writers (xz multi-block, LZMA2 with Flush, classic LZMA through bufio and through io.ByteWriter) with history Write,Write,[Flush],Close,Close: EVERY index k of the sink's Write/WriteByte calls of the fault-free run x {once, forever} x {0 accepted, half accepted}; readers (all formats): EVERY source offset k fails persistently x {error alone, error with the last bytes} x caller buffer {1,4096}. non-trivial = distinct (subject, outcome class, call-result history / bytes delivered)"
+	r.Rule = "writers (xz multi-block, LZMA2 with Flush, classic LZMA through bufio and through io.ByteWriter) with history Write,Write,[Flush],Close,Close: EVERY index k of the sink's Write/WriteByte calls of the fault-free run x {once, forever} x {0 accepted, half accepted}; plus LZMA2 raw chunks across the ring-buffer wrap, one Write spanning blocks, a Write that fills a 2 MiB chunk exactly; readers (all formats, the xz reader also with SingleStream): EVERY source offset k fails persistently x {error alone, error with the last bytes} x caller buffer {1,4096}. non-trivial = distinct (subject, outcome class, call-result history / bytes delivered)"
 	type job struct {
 		w    *C09W
 		base *c09Run
@@ -480,7 +522,7 @@ func runC09(r *core.Run) {
 		rd   *C09R
 	}
 	var jobs []job
-	for _, wn := range []string{"xzW", "lzma2W", "lzmaW-bufio", "lzmaW-bytewriter", "lzma2W-wrap", "xzW-blockspan"} {
+	for _, wn := range []string{"xzW", "lzma2W", "lzmaW-bufio", "lzmaW-bytewriter", "lzma2W-wrap", "xzW-blockspan", "lzma2W-fullchunk", "xzW-fullchunk"} {
 		base := c09Writer(r, C09W{Writer: wn, FailAt: -1})
 		if base.pan != nil || base.failed {
 			panic("C09: fault-free run failed")
@@ -580,6 +622,9 @@ func runC09(r *core.Run) {
 				}
 				for _, b := range []int{1, 4096} {
 					jobs = append(jobs, job{s: s, rd: &C09R{Stream: s.Name, Level: level, FailAt: k, WithData: wd, Buf: b}})
+					if s.Fmt == "xz" && s.ValidCuts == nil {
+						jobs = append(jobs, job{s: s, rd: &C09R{Stream: s.Name, Level: level, FailAt: k, WithData: wd, Buf: b, Single: true}})
+					}
 				}
 			}
 		}
